@@ -130,7 +130,7 @@ def rule_d2(repo, col):
                **({} if loops else {"construct": "copy loop", "function": "ClauseDB._add_head"}))
 
 
-def rule_d3(repo, col):
+def rule_d3(repo, col, memo_attrs=()):
     c = repo.cls(MOD, "ClauseDB")
     m = c.module
     sn = c.methods.get("_set_node")
@@ -154,11 +154,15 @@ def rule_d3(repo, col):
     tab = {}
     for p in dtable.extract(gn.node):
         cd = dict((x, t) for x, t, _ in p.conds)
+        if any(t and any("self.%s" % a_ in x for a_ in memo_attrs) for x, t in cd.items()):
+            continue  # served from a reader memo: whether the memo can be stale is decided by D7
         below = cd.get("%s < self.__offset" % R)
         if below is None:
             tab = None
             break
         tab[below] = p.value
+    if tab is None and memo_attrs:
+        raise AnalysisError("ClauseDB.get_node: memoised look-up in a shape that is not understood")
     okg = tab == {True: "self.__parent.get_node(%s)" % R, False: "self.__nodes[%s - self.__offset]" % R}
     col.decide("D3", m, gn.node, okg, "get_node applies the redirect table, then splits on the offset",
                "get_node must first map the index through self.__node_redirect and then read the parent below the offset / its own list above it (found %s)" % tab,
@@ -183,10 +187,103 @@ def rule_d3(repo, col):
 READERS_OK = "read-only"
 
 
-def rule_d4(repo, col):
+def _attr_writes(f):
+    """self attributes written (assigned, subscript-assigned, mutated through a container method) by a method: {attr: [nodes]}"""
+    out = {}
+    for n in walk_no_nested(f.node):
+        if isinstance(n, (ast.Assign, ast.AugAssign, ast.Delete)):
+            stack = list(n.targets) if isinstance(n, (ast.Assign, ast.Delete)) else [n.target]
+            while stack:
+                t = stack.pop()
+                if isinstance(t, (ast.Tuple, ast.List)):
+                    stack.extend(t.elts)
+                    continue
+                base = t
+                while isinstance(base, ast.Subscript):
+                    base = base.value
+                if is_self_attr(base):
+                    out.setdefault(base.attr, []).append(n)
+            # chained assignment `x = self.a[k] = v` is covered by n.targets
+        if isinstance(n, ast.Call) and isinstance(n.func, ast.Attribute) and n.func.attr in ("append", "add", "extend", "update", "pop", "remove", "clear", "insert", "setdefault"):
+            base = n.func.value
+            while isinstance(base, ast.Subscript):
+                base = base.value
+            if is_self_attr(base):
+                out.setdefault(base.attr, []).append(n)
+    return out
+
+
+def rule_d7(repo, col):
+    """a table that a READER of ClauseDB fills (a memo) holds values derived from other attributes of the database: every method that changes one of those attributes resets the memo"""
+    c = repo.cls(MOD, "ClauseDB")
+    m = c.module
+    readers = ("get_node", "find", "__len__", "iter_nodes", "get_local_scope", "_get_head")
+    memos = {}
+    for rn in readers:
+        f = c.methods.get(rn)
+        if f is None:
+            continue
+        for attr, nodes in _attr_writes(f).items():
+            memos.setdefault(attr, []).append((f, nodes))
+    n = 0
+    for attr, sites in sorted(memos.items()):
+        for f, nodes in sites:
+            # what the stored values are computed from: the data slice of the stored expression plus the tests guarding the store
+            parents_ = m.parents()
+            local = {}
+            for st in walk_no_nested(f.node):
+                if isinstance(st, ast.Assign):
+                    for t_ in st.targets:
+                        if isinstance(t_, ast.Name):
+                            local.setdefault(t_.id, []).append(st.value)
+            exprs = []
+            for nd in nodes:
+                if isinstance(nd, ast.Assign):
+                    exprs.append(nd.value)
+                elif isinstance(nd, ast.Call):
+                    exprs.extend(nd.args)
+                cur, child = parents_.get(nd), nd
+                while cur is not None and cur is not f.node:
+                    if isinstance(cur, (ast.If, ast.While)):
+                        exprs.append(cur.test)
+                    child, cur = cur, parents_.get(cur)
+            deps, seen_names, frontier = set(), set(), list(exprs)
+            while frontier:
+                e_ = frontier.pop()
+                for x in ast.walk(e_):
+                    if is_self_attr(x) and x.attr != attr:
+                        deps.add(x.attr)
+                    elif isinstance(x, ast.Name) and x.id in local and x.id not in seen_names:
+                        seen_names.add(x.id)
+                        frontier.extend(local[x.id])
+            deps = sorted(a for a in deps if a not in c.methods)
+            for wname, w in sorted(c.methods.items()):
+                if w is f or wname == "__init__":
+                    continue
+                ww = _attr_writes(w)
+                hit = [a for a in deps if a in ww and a != "__parent"]
+                if not hit:
+                    continue
+                n += 1
+                resets = attr in ww
+                col.decide("D7", m, ww[hit[0]][0], resets, "ClauseDB.%s changes %s and resets the memo %s filled by %s" % (wname, ", ".join(hit), attr, f.name),
+                           "ClauseDB.%s memoises its answers in self.%s, and those answers depend on self.%s; ClauseDB.%s changes self.%s without resetting the memo: a node fetched before the "
+                           "change keeps being served afterwards - in an extension _add_head reads the parent's define node (memoising it) just before it records the redirect to the extended "
+                           "copy, so clauses added to an existing predicate are never seen by the base program's own rules" % (f.name, attr, ", self.".join(deps), wname, ", self.".join(hit)),
+                           construct="ClauseDB.%s: memo %s not reset when %s changes" % (wname, attr, ", ".join(hit)), function="ClauseDB.%s" % wname)
+    col.ok("D7", m, c.node, "readers of ClauseDB scanned for memo tables: %d found, %d writer obligations" % (len(memos), n), construct="class ClauseDB: reader memo scan", function="ClauseDB")
+    return set(memos)
+
+
+def rule_d4(repo, col, memo_attrs=()):
     c = repo.cls(MOD, "ClauseDB")
     m = c.module
     mut = _mutators(repo, c)
+    # a reader that only fills its own memo (decided by D7) does not write the database
+    for rn in ("get_node", "find", "__len__"):
+        f = c.methods.get(rn)
+        if f is not None and rn in mut and memo_attrs and set(_attr_writes(f)) <= set(memo_attrs):
+            mut.discard(rn)
     col.count("D4.mutating_methods", len(mut))
     if "_set_node" not in mut or "_append_node" not in mut or "get_node" in mut:
         raise AnalysisError("ClauseDB mutator set looks wrong: %s" % sorted(mut))
@@ -245,5 +342,7 @@ def run(repo, col):
     col.rule("D6", "per-database bookkeeping (source_files) is copied, not shared")
     rule_d1(repo, col)
     rule_d2(repo, col)
-    rule_d3(repo, col)
-    rule_d4(repo, col)
+    col.rule("D7", "reader memos are reset by every writer of what they depend on")
+    memo_attrs = rule_d7(repo, col)
+    rule_d3(repo, col, memo_attrs)
+    rule_d4(repo, col, memo_attrs)
